@@ -260,8 +260,10 @@ def run_shard(spec, ctx):
         run_hypothesis(ctx, strat, check_case, spec['examples'], label='render')
     else:
         v4 = st.lists(st.integers(0, 260), min_size=4, max_size=4).map(lambda xs: '.'.join(map(str, xs)))
-        v6 = st.tuples(st.integers(0, 2 ** 128 - 1), st.integers(0, 999)).map(lambda t: render_v6(t[0], t[1]))
-        ctxs = st.sampled_from(['', ' ', '1', '9', '.', ':', 'x', ',', '(', ')', ' 1', '. ', ': ', 'a:', '::', '1.', 'x ', ';'])
+        v6 = st.one_of(st.tuples(st.integers(0, 2 ** 128 - 1), st.integers(0, 999)),
+                       st.tuples(st.lists(st.sampled_from([0, 0, 0, 1, 0xFFFF, 0xAB]), min_size=8, max_size=8).map(
+                           lambda gs: sum(g << (16 * (7 - i)) for i, g in enumerate(gs))), st.integers(0, 999))).map(lambda t: render_v6(t[0], t[1]))
+        ctxs = st.sampled_from(['', ' ', '0', '00', '1', '9', '5', '.', ':', 'x', ',', '(', ')', ' 1', ' 0', '. ', ': ', 'a:', '::', '1.', '0.', 'x ', ';', 'f', 'F'])
         strat = st.one_of(
             st.fixed_dictionaries({'mode': st.just('embed'), 'kind': st.just('IPv4'), 'addr': v4, 'pre': ctxs, 'suf': ctxs}),
             st.fixed_dictionaries({'mode': st.just('embed'), 'kind': st.just('IPv6'), 'addr': v6, 'pre': ctxs, 'suf': ctxs}))
